@@ -4,6 +4,7 @@ import (
 	"fmt"
 	"os"
 	"strconv"
+	"strings"
 
 	"verif/vsched"
 )
@@ -74,6 +75,16 @@ func c01Cells(tier string) []Cell {
 						cells = append(cells, Cell{ID: k.ID()})
 					}
 
+					// The backend answers one of its calls with an unexpected error (a transport fault), at every position:
+					// whatever a Get does then, it does not build next to a build that is in flight.
+					if sc == "o" || sc == "f" {
+						k := c
+						k.Callout = false
+						k.Threads = [][]GOp{{{Key: 0}, {Key: 0}}, {{Key: 0}}}
+						k.Faults = true
+						cells = append(cells, Cell{ID: k.ID()})
+					}
+
 					// A slow data source: every build takes longer than UpdateTTL. However long a build has been running, it is
 					// still THE build of its key.
 					if sc == "o" || sc == "f" {
@@ -119,10 +130,18 @@ func c01Run(c Cell, env *Env) CellResult {
 		opt.PreemptionBound = b
 	}
 
+	if cfg.Faults {
+		opt.EnvBound = 1
+	}
+
 	return exploreF(cfg, env, opt, nil, func(h *fh, r *vsched.Result) []Violation {
 		var vs []Violation
 
 		for _, m := range h.viol {
+			if !strings.HasPrefix(m, "overlap") {
+				continue // provenance of results is C02's subject
+			}
+
 			vs = append(vs, Violation{Signature: fmt.Sprintf("C01 overlap front=%s", frontNames[cfg.Front]), Detail: m})
 		}
 
@@ -134,7 +153,7 @@ func init() {
 	Register(&Prop{
 		ID: "C01", Title: "Failover never runs two builds for the same key at the same time",
 		Cells: c01Cells, Run: c01Run,
-		Rule: "cell = front-end x (SU,SR,FH,MS,FT) x entry state x builder script; per cell every schedule of the Get threads " +
+		Rule: "cell = front-end x (SU,SR,FH,MS,FT) x entry state x builder script x program (plain, SkipRead Get, reused key buffer, context cancelled during the build, slow builds, one backend call failing at every position); per cell every schedule of the Get threads " +
 			"and background builds up to the preemption bound is executed on the real Failover; an outcome is the tuple of Get results plus the number of builds",
 		Assumptions: []string{
 			"scheduling points are every sync/atomic/channel/clock operation of the instrumented package plus the in-flight point inside the harness builder; code between two points runs atomically",
